@@ -26,6 +26,7 @@ func runC20(c *Ctx) {
 	c.Rule("R20.3", 3, "a lexical error carries the start of the pending lexeme")
 	c.Rule("R20.4", 4, "the file name reaches the reader unchanged")
 	c.Rule("R20.5", 2, "the end marker carries no earlier token's position")
+	c.Rule("R20.6", 1, "nothing about the text is reported before the first token is scanned")
 
 	c.mute = map[string]bool{"R4.2": true, "R5.4": true}
 	g := extractEBNF(c, "R20.1")
@@ -259,6 +260,7 @@ func checkFilenamePlumbing(c *Ctx) {
 			// the reader is module code: that it stores the name and reports every position under it is decided here
 			checkMemReader(c, "R20.4", ri)
 			checkMemReaderPositions(c, "R20.4", ri)
+			checkNoErrorBeforeScanning(c, ri)
 		}
 	}
 	for _, h := range hops {
@@ -488,3 +490,127 @@ scanFn:
 }
 
 var _ = token.NoPos
+
+// checkNoErrorBeforeScanning (R20.6): the scanner's constructor reports only what reading the source reports. An error it
+// derives from the text itself (an encoding check of the whole file, a size limit) is reported before the first token is
+// scanned, wherever it lies in the file: an error later in the text then pre-empts the first offending token.
+func checkNoErrorBeforeScanning(c *Ctx, ri *readerInfo) {
+	fn := ri.newSSA
+	key := "the scanner's constructor fails only when reading the source fails"
+	carriesText := func(t types.Type) bool {
+		if p, ok := t.Underlying().(*types.Pointer); ok {
+			t = p.Elem()
+		}
+		switch u := t.Underlying().(type) {
+		case *types.Slice:
+			if b, ok := u.Elem().Underlying().(*types.Basic); ok && b.Kind() == types.Uint8 {
+				return true
+			}
+		case *types.Basic:
+			return u.Kind() == types.String
+		case *types.Struct:
+			for i := 0; i < u.NumFields(); i++ {
+				if sl, ok := u.Field(i).Type().Underlying().(*types.Slice); ok {
+					if b, ok := sl.Elem().Underlying().(*types.Basic); ok && b.Kind() == types.Uint8 {
+						return true
+					}
+				}
+			}
+		}
+		return false
+	}
+	var origin func(f *ssa.Function, v ssa.Value, depth int) (int, string) // 1 read error, 0 derived from the text, -1 unknown
+	origin = func(f *ssa.Function, v ssa.Value, depth int) (int, string) {
+		if depth > 3 {
+			return -1, "too deep"
+		}
+		switch x := v.(type) {
+		case *ssa.Extract:
+			return origin(f, x.Tuple, depth)
+		case *ssa.Phi:
+			worst, why := 1, ""
+			for _, e := range x.Edges {
+				if isNilConst(e) {
+					continue
+				}
+				r, w := origin(f, e, depth+1)
+				if r < worst {
+					worst, why = r, w
+				}
+			}
+			return worst, why
+		case *ssa.Call:
+			if x.Call.IsInvoke() {
+				if x.Call.Method.Name() == "Read" || x.Call.Method.Name() == "ReadByte" || x.Call.Method.Name() == "ReadRune" {
+					return 1, ""
+				}
+				return -1, "an interface method"
+			}
+			callee := x.Call.StaticCallee()
+			if callee == nil {
+				return -1, "a dynamic call"
+			}
+			pp := fnPkgPath(callee)
+			if pp == "io" || pp == "bufio" || pp == "os" || pp == "io/ioutil" {
+				return 1, ""
+			}
+			if !strings.HasPrefix(pp, modPath) || len(callee.Blocks) == 0 {
+				return -1, "a call outside the module"
+			}
+			for _, a := range x.Call.Args {
+				if carriesText(a.Type()) {
+					return 0, shortFn(callee) + " is given the text and returns an error of its own"
+				}
+			}
+			worst, why := 1, ""
+			n := 0
+			for _, b := range callee.Blocks {
+				r, ok := b.Instrs[len(b.Instrs)-1].(*ssa.Return)
+				if !ok || len(r.Results) == 0 {
+					continue
+				}
+				ev := retOperand(r, len(r.Results)-1)
+				if isNilConst(ev) {
+					continue
+				}
+				n++
+				res, w := origin(callee, ev, depth+1)
+				if res < worst {
+					worst, why = res, w
+				}
+			}
+			if n == 0 {
+				return -1, "no error return in " + shortFn(callee)
+			}
+			return worst, why
+		case *ssa.MakeInterface:
+			return 0, "an error value built in the constructor itself"
+		}
+		return -1, "a value this rule does not follow"
+	}
+	n := 0
+	for _, b := range fn.Blocks {
+		ret, ok := b.Instrs[len(b.Instrs)-1].(*ssa.Return)
+		if !ok || len(ret.Results) == 0 {
+			continue
+		}
+		ev := retOperand(ret, len(ret.Results)-1)
+		if !isErr(ev.Type()) || isNilConst(ev) {
+			continue
+		}
+		n++
+		res, why := origin(fn, ev, 0)
+		switch res {
+		case 1:
+			c.Pass("R20.6", key, ret.Pos(), "")
+		case 0:
+			c.Fail("R20.6", key, ret.Pos(), "the constructor returns an error that is derived from the text, not from reading it ("+why+"): it is reported before the first token is scanned, so a defect anywhere later in the file (an invalid byte in a comment at the end) pre-empts the first offending token",
+				"a specification with a syntax error in line 2 and an invalid UTF-8 byte in line 3")
+		default:
+			c.Undecided("R20.6", key, ret.Pos(), why)
+		}
+	}
+	if n == 0 {
+		c.Pass("R20.6", key, fn.Pos(), "the constructor has no error return")
+	}
+}
